@@ -311,7 +311,7 @@ func run(out *Out, r *Rand, tier string, replay []string) {
 		out.Close("replay")
 		return
 	}
-	n := map[string]int{"c04": 700, "c05": 500, "c16": 600}[*mode]
+	n := map[string]int{"c04": 600, "c05": 400, "c16": 500}[*mode]
 	if tier == "thorough" {
 		n *= 30
 	}
@@ -347,7 +347,9 @@ func run(out *Out, r *Rand, tier string, replay []string) {
 		}
 		st.account(p)
 		out.Case(kind, line, obs, classOf(p), p.s != nil && len(p.ops) >= 4)
-		if *mode == "c05" && p.s != nil {
+		// a message without a root word (hand-made arena whose first segment is smaller than
+		// one word) cannot have a tree attached (SetRoot panics): outside C05
+		if segs := p.s0(); *mode == "c05" && p.s != nil && len(segs) > 0 && len(segs[0]) >= 8 {
 			vl, vo := validCase(p.s)
 			if p.expect != "" && !p.stopped {
 				vl += " expect=" + p.expect
@@ -370,4 +372,11 @@ func run(out *Out, r *Rand, tier string, replay []string) {
 		"skipped_oversized": skipped,
 	}
 	out.Close("builder programs: (adaptive) ops chosen over the live handle pool - constructors of every list kind, text, data, capabilities with sizes around the exhaustion point of the preferred segment, data setters with immediate read-back, SetPtr/PointerList.Set/SetStruct/CopyFrom/SetRoot from handles of the same message (aliasing, list members => copies, overwrites) and of a second message (library-built / mutated / cyclic / raw sources with small limits), mutations on both sides and re-walks; (tree) a random value tree built in random order with junk overwritten, shared targets and SetStruct version skew, expected tree printed from the value; arenas Single(nil|cap c), Multi(nil|[cap c]), raw multi [c1..ck]. non-trivial = message created and at least 4 ops")
+}
+
+func (p *prog) s0() [][]byte {
+	if p.s == nil {
+		return nil
+	}
+	return p.s.segments(p.s.Dst)
 }
